@@ -62,7 +62,7 @@ def run(ck, w):
         ck.ok(o, "%d character-indexing call(s) checked" % n_char_idx, instances=n_char_idx)
     ip = w.raw("apath::Apath::is_prefix_of")
     o = ck.ob("C12.1b", "Apath::is_prefix_of still decides by starts_with plus a separator test at the prefix boundary")
-    sw = [e for e in ip.events if e.bb in ip.live and e.name.endswith("<impl str>::starts_with")]
+    sw = [e for e in ip.events if e.bb in ip.live and re.search(r"<impl str>::(starts_with|strip_prefix)$", e.name)]
     if sw:
         ck.ok(o, sites=[sw[0].site()])
     else:
@@ -76,17 +76,19 @@ def run(ck, w):
                        r"to_ascii_lowercase|to_ascii_uppercase|trim|trim_start|trim_end)$|<impl \[u8\]>::(eq_ignore_ascii_case|to_ascii_lowercase)$")
     bad = [(fb, e) for fb in fam for e in fb.events if e.bb in fb.live and wrong.search(e.name)]
     sw_ok = False
-    for e in sw:
-        recv = flow.origins_x(lib, ip, e.args[0])
-        pat = flow.origins_x(lib, ip, e.args[1]) if len(e.args) > 1 else set()
+    # the prefix test itself: candidate.starts_with(self) or candidate.strip_prefix(self)
+    ptests = [e for fb in fam for e in fb.events if e.bb in fb.live and re.search(r"<impl str>::(starts_with|strip_prefix)$", e.name)]
+    for e in ptests:
+        recv = flow.origins_x(lib, e.body, e.args[0])
+        pat = flow.origins_x(lib, e.body, e.args[1]) if len(e.args) > 1 else set()
         if any(x[0] == "param" and x[1] == "a" for x in recv) and any(x[0] == "param" and x[1] == "self" for x in pat):
             sw_ok = True
     if bad:
         fb, e = bad[0]
         ck.fail(o, ip.name, "prefix remainder taken with an API of different meaning",
                 "is_prefix_of calls %s, which does not mean 'what follows this one prefix'" % e.name.split("::")[-1], e.site())
-    elif sw and not sw_ok:
-        ck.fail(o, ip.name, "starts_with operands changed", "starts_with is not candidate.starts_with(self)", sw[0].site())
+    elif not sw_ok:
+        ck.fail(o, ip.name, "starts_with operands changed", "no candidate.starts_with(self) / candidate.strip_prefix(self) test", (ptests or sw or [None])[0].site() if (ptests or sw) else None)
     else:
         ck.ok(o)
 
